@@ -51,6 +51,9 @@ claimed = {
  "C18": dict(engine="enum", tech=ENUM, ref="§3/C18",
    text="The full aliasing matrix: every constructor and accessor of the seven kinds that accepts or returns a Go array, Go map or sequence, sizes 0..4, every position, three mutation modes, observed through private-state dumps; every bulk operation with the receiver or a view of it as operand compared with the call on an independent copy.",
    note="Catalog association objects are live handles by design (not treated as aliasing)"),
+ "C19": dict(engine="vsched", tech=SCHED+"; all interleavings by sleep sets for the script pairs (operations on different objects commute)", ref="§3/C19",
+   text="All 55 pairs of ten operation families (build, mutate, search, sort via collection, sort via Sorter.Make, compare/rank, String(), FormatValue, ParseSource, iterate) on disjoint instances, for int and []int elements, run in two threads (three in the thorough tier) under the scheduler; every thread's result must equal the script run alone and every execution is race-checked with vector clocks over the instrumenter's access log. First-use programs call the generic class accessors on reset registries with every registry lock a scheduling point (elision off) and must return one class per type.",
+   note="2-3 goroutines instead of 2..16; memory outside the source-level access log (slice elements, stdlib internals) is not race-checked"),
  "C20": dict(engine="enum", tech=ENUM+"; every call runs as a one-thread program under the scheduler", ref="§3/C20",
    text="The cross product of the eight universal constructors, every documented argument form, notation argument absent/first/last, seven element/key types and contents of size 0..20 is compared differentially with the class-level constructor or with ParseSource; Association(k,v) for all 49 type pairs.",
    note="source text produced by FormatValue on the class-level collection"),
